@@ -464,17 +464,9 @@ def rule_map(ctx):
                     env["__const__" + k_] = v_
             if h.name:
                 env[h.name] = Inst(exc_name)
+            from ..condeval import exec_block
             try:
-                for st in h.body:
-                    if isinstance(st, ast.Assign) and len(st.targets) == 1:
-                        val = ev(st.value, env)
-                        tg = st.targets[0]
-                        if isinstance(tg, ast.Name):
-                            env[tg.id] = val
-                        elif isinstance(tg, ast.Tuple) and all(isinstance(x, ast.Name) for x in tg.elts) \
-                                and isinstance(val, tuple) and len(val) == len(tg.elts):
-                            for x, v_ in zip(tg.elts, val):
-                                env[x.id] = v_
+                exec_block(h.body, env, stop=lambda st_: st_ is nr[0].ast or any(x is nr[0].call for x in ast.walk(st_)))
                 d = str(ev(arg, env)).split(".")[-1]
             except (Unknown, TypeError, AttributeError, KeyError, IndexError):
                 d = None
